@@ -22,7 +22,7 @@ def run(ctx):
     ctx.do(E.rule_m2)
     ctx.do(E.rule_m3)
     ctx.do(n1, ["geometry_tools/representation.py", "geometry_tools/automata/fsa.py"])
-    ctx.do(CA.rule_c2, "Representation")
+    ctx.do(CA.rule_c2, "Representation", scope=ctx.scope(ENTRIES))
     ctx.do(E.rule_m4)
     ctx.do(SI.rule_fw1)
     ctx.do(u1, ENTRIES, min_functions=10)
